@@ -24,6 +24,10 @@ AllLeaves == CASE G = "G12" -> (IF NV = 1 THEN LeavesG1 ELSE LeavesG2(NV))
                                   CmpC("lt", At(V(2), "n"), LitI(2)), CmpC("gt", At(V(1), "n"), At(V(2), "n")),
                                   CmpC("ne", At(V(3), "ref"), V(2)), CmpC("eq", At(V(1), "m"), At(V(3), "m")),
                                   CmpC("eq", V(1), At(V(2), "ref")), CmpC("le", At(V(3), "n"), LitI(1)) >>
+               \* left-deep chains ((a op b) op c) op d over two variables: operators nested under operators
+               [] G = "G2n" -> << CmpC("eq", At(V(1), "n"), At(V(2), "m")), CmpC("ge", At(V(1), "n"), LitI(1)),
+                                  CmpC("lt", At(V(1), "n"), At(V(2), "n")), CmpC("eq", At(V(2), "m"), LitI(0)),
+                                  CmpC("ge", At(V(2), "m"), At(V(1), "m")), CmpC("ne", At(V(1), "m"), At(V(2), "n")) >>
                [] G = "G1x" -> Cat([i \in 1..NV |-> Some(CoreLeaves(V(i)), 2)])    \* independent single-variable leaves
                [] G = "G3"  -> LeavesG3
                [] G = "G6"  -> LeavesG6
@@ -39,6 +43,7 @@ Selections ==
   CASE G = "G1x" -> << Sel("set_of", [j \in 1..NV |-> V(j)]), Sel("set_of", [j \in 1..NV |-> V(NV + 1 - j)]) >>
     [] G = "G3s" -> << Sel("set_of", <<V(1), V(2), V(3)>>), Sel("set_of", <<V(1), V(2)>>), Sel("set_of", <<V(2), V(3)>>),
                        Sel("entity", <<V(2)>>) >>
+    [] G = "G2n" -> << Sel("entity", <<V(1)>>), Sel("set_of", <<V(1), V(2)>>), Sel("entity", <<V(2)>>) >>
     [] G = "G3v" -> << Sel("set_of", <<V(3), V(1)>>), Sel("set_of", <<V(1), V(2), V(3)>>), Sel("entity", <<V(2)>>) >>
     [] G = "G12" ->
        (IF NV = 1 THEN << Sel("entity", <<V(1)>>) >>
@@ -77,6 +82,7 @@ ApplyNot(form) == /\ done = <<>> /\ stack # <<>> /\ NotDepth(Top) < MaxNot /\ To
 ApplyBin(kind, form) ==
   /\ done = <<>> /\ Len(stack) >= 2
   /\ (kind = "or" => ~HasSubOperand(Top) /\ ~HasSubOperand(stack[Len(stack) - 1]))
+  /\ (G = "G2n" => NLeaves(Top) = 1)                     \* left-deep: the right operand is always a leaf
   /\ LET l == stack[Len(stack) - 1] r == Top
      IN stack' = Append(Pop(2), IF kind = "and" THEN AndC(l, r, form) ELSE OrC(l, r, form))
   /\ UNCHANGED done
